@@ -20,6 +20,7 @@ DECIDES = ('every multi-direction subscript of a canonical flat array in the pac
 NOT_DECIDED = 'that reconstruction evaluates identically also needs C01; nothing structural is left out on the listed functions. Functions the interpreter cannot resolve are reported as notes, never as passes of a claimed obligation.'
 TECHNIQUE = 'abstract interpretation of list layouts over symbolic sizes (polynomial extents, direction labels), stride rule, axis-map coherence'
 DECIDES += (" [ABSTRACT INTERPRETATION] OPS2: insert / remove / refine on abstract nets with index-labelled points; MG2: the managers' index formula on integer boxes; EX2: extract_curves on an abstract surface returns per family the rows, degree and knot vector of its own direction and each option switches off its own family only; CV3: the flip converters cell by cell.")
+DECIDES += (" TP2: operations.transpose interpreted together with the real degree / net / knot setters on nets where one direction has fewer points than the other's degree + 1: no setter rejects an intermediate state, and degrees, sizes, knots and points are exchanged; SW2: sweep_vector through the real accessors keeps class, degree, knots and weights of the section; KD5 / GV2: the 2-D view [u][v] of a surface is the very list stored at v + size_v * u.")
 
 PKG = ('evaluators', 'helpers', 'operations', 'construct', 'control_points', 'compatibility', 'BSpline', 'NURBS', 'abstract', '_exchange', 'exchange',
        'fitting', 'utilities', '_tessellate', 'sweeping', 'multi', 'trimming', '_operations', 'convert', '_convert')
